@@ -40,6 +40,14 @@ func newp(items ...string) rc.Field  { return rc.F(212, rc.PathS(items...)) }
 func login(s string) rc.Field        { return rc.F(105, rc.Obfuscate([]byte(s))) }
 func npath(items ...string) rc.Field { return rc.F(325, rc.PathS(items...)) }
 
+func dots(n int) []string {
+	out := make([]string, n)
+	for i := range out {
+		out[i] = "."
+	}
+	return out
+}
+
 func sub(fs ...rc.Field) rc.Field { return rc.F(101, rc.SubFields(fs...)) }
 
 var scenarios = []scenario{
@@ -160,6 +168,37 @@ var scenarios = []scenario{
 		}
 		return ""
 	}},
+	// paths of 256 and 257 items (the item count no longer fits one byte): the folder that is used and the folder the
+	// drop-box / upload-folder rules look at must be the same one
+	{name: "list-dropbox-by-256-item-path", typ: 200, build: func(e env) []rc.Field {
+		return []rc.Field{rc.F(202, rc.PathS(append(dots(255), "Drop Box")...))}
+	}, semantic: func(bits []byte, o outcome, srv *fixture.Server) string {
+		if !rc.BitSet(bits, 30) && strings.Contains(o.replyHex, fmt.Sprintf("%x", "secret.txt")) {
+			return "the reply lists the content of a drop box (named by a 256-item path) to an account without view-drop-boxes"
+		}
+		return ""
+	}},
+	{name: "list-dropbox-by-257-item-path", typ: 200, build: func(e env) []rc.Field {
+		return []rc.Field{rc.F(202, rc.PathS(append(dots(256), "Drop Box")...))}
+	}, semantic: func(bits []byte, o outcome, srv *fixture.Server) string {
+		if !rc.BitSet(bits, 30) && strings.Contains(o.replyHex, fmt.Sprintf("%x", "secret.txt")) {
+			return "the reply lists the content of a drop box (named by a 257-item path) to an account without view-drop-boxes"
+		}
+		return ""
+	}},
+	{name: "upload-by-257-item-path", typ: 203, transfer: true, build: func(e env) []rc.Field {
+		return []rc.Field{fn("sneaked.bin"), rc.F(202, rc.PathS(append(append([]string{"Uploads", ".."}, dots(254)...), "Docs")...)), rc.F(108, rc.U32(100))}
+	}, semantic: func(bits []byte, o outcome, srv *fixture.Server) string {
+		if rc.BitSet(bits, 25) {
+			return ""
+		}
+		for _, d := range o.diff {
+			if strings.HasPrefix(d, "added root/") && !strings.HasPrefix(d, "added root/Uploads/") && !strings.HasPrefix(d, "added root/Drop Box/") {
+				return "an account without upload-anywhere caused " + d
+			}
+		}
+		return ""
+	}},
 	// an account creation whose login is spelled so that it names an existing account's file: whatever the reply, an
 	// account that may not modify users must not have changed the existing account
 	{name: "new-user-spelled-like-existing", typ: 350, build: func(e env) []rc.Field {
@@ -240,7 +279,7 @@ func init() {
 	n := len(scenarios) * chunks
 	core.Register(&core.Simple{
 		Id: "C05", Lvl: "exploration", Quick: n, Thorough: n * 12, PerBatch: 72, Width: 24, Timeout: 1200,
-		RuleText: "one case = one request scenario (request type x target kind, 70 scenarios incl. controls, operations on existing aliases (also on one whose original is gone), and two hostile path encodings, a creation spelled like an existing account and posts to missing categories judged by absolute oracles) executed on identical fresh servers under a chunk of access bitmaps: all-ones (baseline), all-ones minus each governing bit, only the governing bits, the 64 single-bit bitmaps (exhaustive across the 8 chunks of a scenario) and seeded random bitmaps; the privileges are either held from the start, or set by an administrator between the actor's login and its agreed, or set on the live session (the privileges current when the request arrives are what counts); the oracle compares reply class, emissions to other clients and file/account/news/board snapshots with the baseline (granted) or demands an error reply and no change (denied). distinct = (scenario, bitmap class, granted/denied); non-trivial = every execution",
+		RuleText: "one case = one request scenario (request type x target kind, 73 scenarios incl. controls, paths of 256/257 items, operations on existing aliases (also on one whose original is gone), and two hostile path encodings, a creation spelled like an existing account and posts to missing categories judged by absolute oracles) executed on identical fresh servers under a chunk of access bitmaps: all-ones (baseline), all-ones minus each governing bit, only the governing bits, the 64 single-bit bitmaps (exhaustive across the 8 chunks of a scenario) and seeded random bitmaps; the privileges are either held from the start, or set by an administrator between the actor's login and its agreed, or set on the live session (the privileges current when the request arrives are what counts); the oracle compares reply class, emissions to other clients and file/account/news/board snapshots with the baseline (granted) or demands an error reply and no change (denied). distinct = (scenario, bitmap class, granted/denied); non-trivial = every execution",
 		Case:     runCase,
 	})
 }
